@@ -6,7 +6,11 @@ W = 1 << 64
 THEOREMS = ["Kdf.Props.C12.read_len_le", "Kdf.Props.C12.read_ok", "Kdf.Props.C12.read_zero_len",
             "Kdf.Props.C12.read_fail_prefix", "Kdf.Props.C12.read_ok_iff", "Kdf.Props.C12.string_upto_nul",
             "Kdf.Props.C12.string_fail_no_result", "Kdf.Props.C12.string_total",
-            "Kdf.Props.C12.read_ok_of_pages_ok", "Kdf.Props.C12.read_full_iff", "Kdf.Props.C12.read_ok_needs_sound"]
+            "Kdf.Props.C12.read_ok_of_pages_ok", "Kdf.Props.C12.read_full_iff", "Kdf.Props.C12.read_ok_needs_sound",
+            "Kdf.Props.C12.read_unknown_ps", "Kdf.Props.C12.readApi_known", "Kdf.Props.C12.readApi_len_le",
+            "Kdf.Props.C12.string_unknown_ps"]
+# ELF machine numbers for which the library has no default page size (EM_PPC, EM_IA_64, unassigned numbers)
+NOPS_MACHINES = [20, 50, 0, 9999, 0xfffe]
 VOFFS = [0xffff880000000000, 0xffffffff80000000 - 0x1000000, 0x1000]
 
 
@@ -138,6 +142,78 @@ def gen_cases(R, L):
     return cases
 
 
+def nops_phase(R, exe):
+    """Reads in the state "the page size is not known" (ELF cores of machines without a default page size and without
+    PAGESIZE in VMCOREINFO), then the same context after arch.page_size was set.  Returns (fail, replay, n, kinds, impl, model)."""
+    rng = R.rng
+    lines, want, lays = [], [], []
+    for li in range(3 if R.tier == "quick" else 24):
+        ps = rng.choice([4096, 4096, 8192, 16384, 65536]) if li else 4096
+        L = Layout(rng, R.path("c12-nops-%d.elf" % li), ps=ps, kind="elf")
+        L.machine = NOPS_MACHINES[li] if li < 2 else rng.choice(NOPS_MACHINES + [rng.randrange(260, 0xff00)])
+        L.kphys_off = 0
+        for s in L.segs:
+            s["voff"] = 0
+        runs = [(s["pfn"] * ps, (s["pfn"] + s["npages"]) * ps) for s in L.segs]
+        for (a, b) in runs:
+            L.nuls.append(rng.randrange(a, b))
+        dumpgen.write_elf(L.path, L.segs, ps=ps, machine=L.machine, nuls=L.nuls)
+        top = max(s["pfn"] + s["npages"] for s in L.segs) + 2
+        L.oracle = {(1, pf * ps): (dumpgen.page_bytes(pf, ps, L.nuls) if pf in L.present else "nodata") for pf in range(top)}
+        lays.append(L)
+        cases = []
+        for as_ in (0, 1, 2):
+            for (a, b) in runs[:2]:
+                for st in {a, a + 1, b - 1, b, rng.randrange(a, b), rng.getrandbits(64)}:
+                    for ln in rng.sample([0, 1, 2, ps - 1, ps, ps + 1, max(b - st, 1), 3 * ps + 7, rng.randint(1, 5 * ps)], 3):
+                        if st + ln <= W:
+                            cases.append(("read", as_, st, ln))
+                cases.append(("str", as_, rng.randrange(a, b)))
+        rng.shuffle(cases)
+        lines.append("open %s 0" % L.path); want.append((li, None, "nops nodata"))
+        for c in cases:
+            lines.append(" ".join(str(x) for x in c))
+            want.append((li, c, ("invalid 0 %d" % dumpgen.fnv(b"") if c[3] else "ok 0 %d" % dumpgen.fnv(b"")) if c[0] == "read" else "invalid - -"))
+        # the page size becomes known: from here on the reads deliver data with the usual prefix semantics
+        lines.append("setps %d" % ps); want.append((li, None, "setps ok"))
+        lines.append("miss 1 nodata")
+        lines += ["pg 1 %d %s" % (pa, v.hex()) for (a, pa), v in L.oracle.items() if not isinstance(v, str)]
+        for c in cases:
+            if c[1] != 1:
+                continue
+            st, data = L.expect_read(1, c[2], c[3]) if c[0] == "read" else L.expect_str(1, c[2])
+            if st is None:
+                continue
+            lines.append(" ".join(str(x) for x in c))
+            want.append((li, c, ("%s %d %d" % (st, len(data), dumpgen.fnv(data))) if c[0] == "read" else
+                         ("ok %d %d" % (len(data), dumpgen.fnv(data)) if st == "ok" else "%s - -" % st)))
+    text = "\n".join(lines) + "\n"
+    rc, out, err = R.run_harness(exe, stdin_text=text)
+    impl = kdf.obs(out)
+    model = kdf.obs(R.run_driver("read", text))
+    fail = None
+    kinds = {}
+    for i, ((li, c, w), o) in enumerate(zip(want, impl)):
+        L = lays[li]
+        if c is not None:
+            k = "nops/%s/%s" % (c[0], w.split()[0]); kinds[k] = kinds.get(k, 0) + 1
+        if o != w:
+            known = any(ww[2] == "setps ok" and ww[0] == li for ww in want[:i])
+            if c is None:
+                msg = "ELF core with e_machine=%d and no PAGESIZE: expected '%s', the library answered '%s'" % (L.machine, w, o)
+            else:
+                msg = ("%s as=%d addr=%#x%s on an ELF core with e_machine=%d, %s: implementation reported '%s'; expected '%s' "
+                       "(status, reported length, fnv of the bytes)" % (c[0], c[1], c[2], " len=%d" % c[3] if c[0] == "read" else "", L.machine,
+                        "arch.page_size set to %d after the open" % L.ps if known else "page size not known (arch.page_size unset)", o, w))
+            fail = (msg, dict(stream="read/unknown-page-size", layout=dict(ps=L.ps, segs=L.segs, nuls=L.nuls, e_machine=L.machine), case=c,
+                              page_size_known=known, observed=o, expected=w, stderr=err[-1000:]))
+            break
+    if fail is None and (rc != 0 or len(impl) != len(want)):
+        fail = ("harness stopped after %d of %d unknown-page-size cases (rc=%s): %s" % (len(impl), len(want), rc, err.strip()[:600]),
+                dict(stream="read/unknown-page-size", lines=lines[:200]))
+    return fail, len(want), kinds, impl, model
+
+
 def run(R):
     facts, changed = R.extract()
     proof = R.prove(["Kdf.Props.C12"], THEOREMS)
@@ -219,6 +295,15 @@ def run(R):
                        "(status, length, fnv of bytes)" % (c[0], c[1], c[2], " len=%d" % c[3] if c[0] == "read" else "", o, want))
             break
     mism = kdf.diff_streams(impl, model)
+    # phase 4: the state "page size not known" (and the same context after the page size was set)
+    nfail, n_nops, nkinds, nimpl, nmodel = nops_phase(R, exe)
+    kinds.update(nkinds)
+    if nfail and not fail:
+        rp = dict(nfail[1]); rp["broken_theorems"] = proof["broken"]
+        R.violation(nfail[0], rp)
+    if mism is None and not nfail:
+        m4 = kdf.diff_streams([x for x in nimpl if not x.startswith("nops ")], nmodel)
+        mism = None if m4 is None else len(impl) + m4
     # phase 3 (implementation only; an allocation failure is an environment fault the model does not have): string reads
     # whose k-th allocation fails must fail, leave no block behind and must not disturb later reads (cache of 4 pages)
     nfault = 0
@@ -284,6 +369,7 @@ def run(R):
             R.violation(fail3, dict(stream="read/fault-injection", lines=l3[:400], stderr=err3[-1500:], broken_theorems=proof["broken"]))
     if fail:
         i, msg = fail
+        i = min(i, len(cases) - 1)
         li, c = cases[i]
         L = layouts[li]
         R.violation(msg, dict(stream="read", layout=dict(ps=L.ps, segs=L.segs, nuls=L.nuls), case=c,
@@ -292,7 +378,7 @@ def run(R):
     elif proof["broken"] or mism is not None:
         R.violation("proof obligation or correspondence broken: theorems %s; first differing observation %s" % (proof["broken"], mism),
                     dict(stream="read", broken_theorems=proof["broken"], lean_log=proof["log"][-1500:],
-                         first_diff=None if mism is None else dict(index=mism, case=cases[mism] if mism < len(cases) else None,
+                         first_diff=None if mism is None else dict(index=mism, case=cases[mism] if mism < len(cases) else "unknown-page-size stream #%d" % (mism - len(impl)),
                                                                    impl=impl[mism] if mism < len(impl) else None,
                                                                    model=model[mism] if mism < len(model) else None)),
                     found_input=False)
@@ -303,11 +389,13 @@ def run(R):
                              "of the implementation, so this check is independent of what the file format handlers return (C01)",
                              "tools/dumpgen.py ELF writer, harness/s_read.c, gcc + ASan/UBSan"],
                broken_theorems=proof["broken"], theorems=THEOREMS,
-               evaluations=len(cases), distinct_nontrivial=len({(li, c) for li, c in cases if c[0] == "str" or c[3] > 0}),
+               evaluations=len(cases) + n_nops, unknown_page_size_cases=n_nops, distinct_nontrivial=len({(li, c) for li, c in cases if c[0] == "str" or c[3] > 0}),
                rule="ELF dumps with random page runs and holes; reads at starts/lengths enumerated relative to run and page boundaries "
                     "(-1,0,+1, zero length, several pages then a hole) in all three address spaces; strings of every small length at every "
-                    "offset before a page end, strings running into a hole; non-trivial = distinct non-zero-length cases",
+                    "offset before a page end, strings running into a hole; ELF cores of machines without a default page size (EM_PPC, EM_IA_64, "
+                    "unassigned numbers): reads and string reads in all address spaces while the page size is not known, then again after arch.page_size "
+                    "was set (4K..64K); non-trivial = distinct non-zero-length cases",
                traces_validated_against_impl=len(impl), alloc_faults_fired=nfault, correspondence_first_diff=mism, case_kinds=kinds, miss_statuses=misses,
                samples=[dict(case=cases[i][1], observed=impl[i]) for i in (0, len(cases) // 2, len(cases) - 1) if i < len(impl)])
-    return "proof", cov, ["page size 4096 (ELF x86_64); range does not wrap the address space",
+    return "proof", cov, ["page size 4096 (ELF x86_64) in the main stream, 4K..64K in the unknown-page-size stream; range does not wrap the address space",
                           "a page fetch returns a whole page or a non-OK status (OracleSound); what it returns is C01's subject"]
